@@ -133,6 +133,7 @@ int c11_run(const char *tier) {
 	int nedges = 0; for (int a = 0; a < nlk; a++) for (int b = 0; b < nlk; b++) if (G[a][b]) { nedges++; rep_note("lock order edge %s -> %s (modes %d) first seen in %s", lkname[a], lkname[b], G[a][b], Glabel[a][b]); }
 	nfound = 0; for (int s0 = 0; s0 < nlk; s0++) { cyc[0] = s0; dfs(s0, s0, 0); }
 	long pair_execs = 0, confirmed_runs = 0;
+	if (rep_nviol() > 0 && nfound > 0) { rep_note("%d cycle candidates not explored: the catalogue already reports locks held at return / ledger violations, and every later acquisition of a leaked lock produces spurious nesting edges", nfound); nfound = 0; }
 	for (int c = 0; c < nfound; c++) {
 		int L = found_len[c]; char desc[600]; size_t o = 0;
 		for (int i = 0; i < L; i++) { int a = found_cycles[c][i], b = found_cycles[c][(i + 1) % L]; o += (size_t) snprintf(desc + o, sizeof desc - o, "%s -[%d call(s), first %s]-> ", lkname[a], nGl[a][b], Glabel[a][b]); }
